@@ -35,6 +35,13 @@ inductive Op
   | poll (c : Nat)
   | drop (c : Nat)
   | adv (ms : Nat)
+  /-- the handle the caller wanted to call did not become ready: its inner service answered `poll_ready` with an
+  error (`some kind`: the caller gets that error and discards the handle) or stayed pending until the caller gave
+  up (`none`); no call future is ever created and the bulkhead's slots are not concerned -/
+  | refuse (c : Nat) (kind : Option Nat)
+  /-- `n` inner calls were started elsewhere (by other services over the same scripted backend, whose call
+  serial numbers are global): only the serial counter moves -/
+  | tick (n : Nat)
 deriving Repr
 
 /-- give one permit back: to the head of the queue if any, else to the pool -/
@@ -92,6 +99,12 @@ def pollAssigned (s : State) (c : Nat) : State :=
 def dropRunning (s : State) (c : Nat) : State :=
   finishRunning s c [.innerDrop c ((lookup s.kOf c).getD 0)]
 
+/-- A readiness failure of one handle is answered to that caller and touches nothing else: not the permits, not
+the queue, not the calls in flight (`Bulkhead::poll_ready` only forwards the inner service's answer). -/
+def refuseCall (s : State) (c : Nat) (kind : Option Nat) : State :=
+  emit { s with script := (c, { lat := 0, out := .ok }) :: s.script }
+    [.result c (match kind with | some k => .inner k 0 | none => .notReady)]
+
 def stepS (cfg : Cfg) (s : State) (op : Op) : State :=
   match op with
   | .adv ms => { s with now := s.now + ms }
@@ -109,34 +122,118 @@ def stepS (cfg : Cfg) (s : State) (op : Op) : State :=
       else if s.assigned.contains c then release { s with assigned := s.assigned.erase c }
       else if s.running.contains c then dropRunning s c
       else s
+  | .refuse c kind =>
+      if known s c then s else refuseCall s c kind
+  | .tick n => { s with serial := s.serial + n }
 
 def init (cfg : Cfg) : State := { free := cfg.max }
 def run (cfg : Cfg) (ops : List Op) : State := ops.foldl (stepS cfg) (init cfg)
 
+/-! ## several services built from one layer value
+
+`BulkheadLayer::layer` makes a new semaphore for every service it wraps (`Bulkhead::new`); the layer value (and its
+clones) only carries the configuration. Services built from one layer are therefore independent bulkheads with the
+same `Cfg`. They are modelled as a family of instances, one per service index; every service exists from the start
+(a service that has not been built yet cannot be told from one that has never been used). The only thing the
+instances share is an artefact of the harness: the scripted inner services number their calls with one global
+serial, so a call made through service `i` moves the serial of every other instance (`Op.tick`). Time is common. -/
+
+structure MState where
+  insts : Nat → State
+  /-- ghost: the operations service `j` has seen so far (`insts j = run cfg (hist j)`, see `Lemmas/BulkheadMulti`) -/
+  hist  : Nat → List Op
+
+def initM (cfg : Cfg) : MState := { insts := fun _ => init cfg, hist := fun _ => [] }
+
+/-- `op` performed on service `i` (time advances everywhere; a `tick` is not an operation of a caller) -/
+def stepM (cfg : Cfg) (ms : MState) (i : Nat) (op : Op) : MState :=
+  match op with
+  | .adv d => { insts := fun j => stepS cfg (ms.insts j) (.adv d), hist := fun j => ms.hist j ++ [.adv d] }
+  | .tick _ => ms
+  | op =>
+      let st' := stepS cfg (ms.insts i) op
+      let n := st'.serial - (ms.insts i).serial
+      { insts := fun j => if j = i then st' else stepS cfg (ms.insts j) (.tick n),
+        hist := fun j => if j = i then ms.hist j ++ [op] else ms.hist j ++ [.tick n] }
+
+def runM (cfg : Cfg) (mops : List (Nat × Op)) : MState :=
+  mops.foldl (fun ms (io : Nat × Op) => stepM cfg ms io.1 io.2) (initM cfg)
+
+/-! ## presets (`BulkheadLayer::small/medium/large`, layer.rs): documented configuration -/
+
+/-- `BulkheadLayer::small()`: 10 concurrent calls, reject immediately when full -/
+def presetSmall : Cfg := { max := 10, maxWait := some 0 }
+/-- `BulkheadLayer::medium()`: 50 concurrent calls, reject immediately when full -/
+def presetMedium : Cfg := { max := 50, maxWait := some 0 }
+/-- `BulkheadLayer::large()`: 200 concurrent calls, reject immediately when full -/
+def presetLarge : Cfg := { max := 200, maxWait := some 0 }
+
+def presetOf (name : String) : Option Cfg :=
+  if name = "small" then some presetSmall
+  else if name = "medium" then some presetMedium
+  else if name = "large" then some presetLarge
+  else none
+
+/-- The configuration a case header describes: an optional preset, then the builder calls in the order the adapter
+makes them — `max_concurrent_calls(max)` if given, `pre=reject` (`reject_when_full()`), `wait=` (`max_wait_duration`),
+`post=reject`: for the wait the last setter decides. -/
+def cfgOf (kv : Kv) : Cfg :=
+  let base : Option Cfg := presetOf (kv.str "preset" "")
+  let max := kv.nat "max" (match base with | some b => b.max | none => 1)
+  let wait0 : Option Nat := match base with | some b => b.maxWait | none => none
+  let wait1 : Option Nat := if kv.str "pre" "" = "reject" then some 0 else wait0
+  let wait2 : Option Nat := if kv.str "wait" "" = "max" then some (10 ^ 30)
+                            else match kv.optNat "wait" with | some w => some w | none => wait1
+  { max := max, maxWait := if kv.str "post" "" = "reject" then some 0 else wait2 }
+
 /-! ## line protocol -/
+
+/-- `rdy=<script>`: the answers of the inner service to the successive `poll_ready` calls on the handle the caller is
+about to call ('p' pending, 'r' ready, 'e' error); the caller polls until an answer other than pending or until the
+script ends. `none`: the handle became ready (the call is made); `some none`: it never did (the caller gives up,
+`notready`); `some (some 9)`: readiness failed with the scripted inner error (kind 9). -/
+def readiness (kv : Kv) : Option (Option Nat) :=
+  match kv.get "rdy" with
+  | none => none
+  | some sc =>
+    match sc.toList.dropWhile (· == 'p') with
+    | [] => some none
+    | ch :: _ => if ch == 'e' then some (some 9) else none
 
 def parseOp (ws : List String) : Option Op :=
   match ws with
   | "arrive" :: c :: rest =>
-      let plan := planOf (parseKv rest)
-      some (.arrive (c.toNat?.getD 0) (plan.headD { lat := 0, out := .ok }))
+      let kv := parseKv rest
+      match readiness kv with
+      | some kind => some (.refuse (c.toNat?.getD 0) kind)
+      | none =>
+        let plan := planOf kv
+        some (.arrive (c.toNat?.getD 0) (plan.headD { lat := 0, out := .ok }))
   | "poll" :: c :: _ => some (.poll (c.toNat?.getD 0))
   | "drop" :: c :: _ => some (.drop (c.toNat?.getD 0))
   | "adv" :: ms :: _ => some (.adv (ms.toNat?.getD 0))
   | _ => none
 
+/-- the service an operation line concerns: `svc=<k>` on `arrive` (default 0), the caller's service otherwise -/
+def svcOf (owner : List (Nat × Nat)) (ws : List String) : Nat :=
+  match ws with
+  | "arrive" :: _ :: rest => (parseKv rest).nat "svc" 0
+  | _ :: c :: _ => (lookup owner (c.toNat?.getD 0)).getD 0
+  | _ => 0
+
 def machine : Machine where
-  σ := Cfg × State
-  init kv :=
-    let cfg : Cfg := { max := kv.nat "max" 1, maxWait := (if kv.str "post" "" = "reject" then some 0
-                  else if kv.str "wait" "" = "max" then some (10 ^ 30)
-                  else if kv.str "pre" "" = "reject" && (kv.optNat "wait").isNone then some 0
-                  else kv.optNat "wait") }
-    (cfg, init cfg)
-  step := fun (cfg, s) ws =>
+  σ := Cfg × MState × List (Nat × Nat)
+  init kv := let cfg := cfgOf kv; (cfg, initM cfg, [])
+  step := fun (cfg, ms, owner) ws =>
     match parseOp ws with
-    | some op => let s' := stepS cfg s op; ((cfg, s'), s'.log.drop s.log.length)
-    | none => ((cfg, s), [])
-  now := fun (_, s) => s.now
+    | some op =>
+        let i := svcOf owner ws
+        let owner' := match ws with
+          | "arrive" :: c :: _ => if (lookup owner (c.toNat?.getD 0)).isSome then owner else (c.toNat?.getD 0, i) :: owner
+          | _ => owner
+        let ms' := stepM cfg ms i op
+        ((cfg, ms', owner'), (ms'.insts i).log.drop (ms.insts i).log.length)
+    | none => ((cfg, ms, owner), [])
+  now := fun (_, ms, _) => (ms.insts 0).now
 
 end TR.Bulkhead
